@@ -610,3 +610,35 @@ def _valid(ev, node):
 def _sqrt(ev, node):
     x = to_real_term(ev.e(node.args[0]))
     return SFloat(vals.sqrtf(x))
+
+
+def _extremum(ev, node, is_max):
+    """MinOf/MaxOf(lo, hi, lambda t: term): extremum over lo <= t < hi (unspecified when empty)"""
+    from .iteration import ExtSym
+    from .state import QAssume, fresh_name
+
+    snap = SpecEval(ev.ex, ev.st.fork(), ev.env, ev.old_st)
+    lo, hi, fn = ev.e(node.args[0]), ev.e(node.args[1]), snap.e(node.args[2])
+    lo_t, hi_t = to_int_term(lo), to_int_term(hi)
+    ctx = ev.ex.ctx
+    if not hasattr(ctx, "exts"):
+        ctx.exts = []
+    body = lambda k: to_real_term(fn(k))
+    j = z3.Int("extj")
+    bj = z3.simplify(body(j))
+    for es in ctx.exts:
+        if es.is_max == is_max and z3.simplify(es.body(j)).eq(bj):
+            return SFloat(es.val(lo_t, hi_t))
+    es = ExtSym(fresh_name("MaxOf" if is_max else "MinOf"), body, is_max)
+    ctx.exts.append(es)
+    return SFloat(es.val(lo_t, hi_t))
+
+
+@specfn("MinOf")
+def _minof(ev, node):
+    return _extremum(ev, node, False)
+
+
+@specfn("MaxOf")
+def _maxof(ev, node):
+    return _extremum(ev, node, True)
